@@ -318,7 +318,7 @@ func floatConvAny(val any, args []any) (f float64, ok bool) {
 }
 
 func floatConv(val any) (f float64, ok bool) {
-	if val == nil {
+	if val == nil || typedNil(val) {
 		return 0, false
 	}
 	ok = true
